@@ -469,6 +469,53 @@ theorem refused_run_touches_only_its_log (r : RunIn) (wf : (effective r.call).1.
     (afterLogging_wf _ wf) h
   simp [this]
 
+/-! ## text → bytes: nothing can fail once the target has been opened -/
+
+/-- the codec the code names, UTF-8, encodes every document `json.dumps` can produce -/
+theorem named_codec_encodes_everything (env : Env) (text : Bytes) : encodable (fileCodec env) text = true :=
+  utf8_encodes_everything text
+
+/-- `write_to_file` / `dump_records` do not depend on the locale: with `encoding="utf-8"` named at the
+    `open`, the environment's default codec is never consulted -/
+theorem write_is_locale_independent (env env' : Env) (r : Results) (h : Handle) (d : Dir) :
+    writeToFileIn env r h d = writeToFileIn env' r h d ∧
+    dumpRecordsIn env r.records r.results h d = dumpRecordsIn env' r.records r.results h d := by
+  simp only [writeToFileIn_eq, dumpRecordsIn_eq, and_self]
+
+/-- **every failure precedes the `open`**, in every environment and whatever characters the results
+    contain: if `write_to_file` raises — for whatever reason — no file was opened or written and the
+    directory is byte for byte what it was.  The encoding of the text to bytes, the one step that runs
+    after the truncation, cannot be that reason. -/
+theorem nothing_fails_after_open (env : Env) (r : Results) (h : Handle) (d : Dir) (e : Exn)
+    (he : (writeToFileIn env r h d).err = some e) :
+    (writeToFileIn env r h d).dir = d ∧ (writeToFileIn env r h d).trace.any Ev.touchesFiles = false ∧
+      r.hasFault = true := by
+  rw [writeToFileIn_eq] at he ⊢
+  cases hf : r.hasFault with
+  | false =>
+    have := (clean_write_complete r h d hf).1
+    rw [this] at he; cases he
+  | true =>
+    obtain ⟨_, h2, _, h4⟩ := failed_conversion_preserves_file r h d hf
+    exact ⟨h2, h4, rfl⟩
+
+theorem nothing_fails_after_open_dump (env : Env) (rs : List RecSpec) (ress : List ModDict) (h : Handle) (d : Dir)
+    (e : Exn) (he : (dumpRecordsIn env rs ress h d).err = some e) :
+    (dumpRecordsIn env rs ress h d).dir = d ∧ (dumpRecordsIn env rs ress h d).trace.any Ev.touchesFiles = false := by
+  rw [dumpRecordsIn_eq] at he ⊢
+  cases hf : dumpFault rs ress h with
+  | false =>
+    have := dumpRecords_clean rs ress h d hf
+    cases h <;> simp_all
+  | true =>
+    obtain ⟨_, h2, h3⟩ := dump_records_same rs ress h d hf
+    exact ⟨h2, h3⟩
+
+/-- the executable spec holds of the model in every environment -/
+theorem write_to_file_meets_spec_in (env : Env) (r : Results) (h : Handle) (d : Dir) :
+    specWriteToFile r h d (writeToFileIn env r h d) = true := by
+  rw [writeToFileIn_eq]; exact write_to_file_meets_spec r h d
+
 /-! ## `run_antismash` under every option it reads -/
 
 /-- **a refused output directory is untouched, whatever the options**: for every combination of
@@ -661,6 +708,15 @@ example : (runFull exProf (exRun .absent "/w/out/run.log")).out.trace =
      .write "profiling_results"] := by decide
 example : runFull { exProf with listPlugins := true } (exRun .absent "/w/elsewhere.log") =
     ⟨⟨[], none, .absent⟩, some 0⟩ := by decide
+/-- the hazard is real: were the file opened with the *locale's* codec, one non-ASCII character under
+    `LC_ALL=C` would raise after the truncation and leave the old results empty; with the codec the code
+    names the same text is written -/
+example : emitWith .ascii (.path "res.json") exDir [.str "β-lactone"] =
+    ([.openW "res.json", .write "res.json"],
+     [⟨"keep.txt", false, [.raw "bystander"]⟩, ⟨"res.json", false, []⟩], some "UnicodeEncodeError") := by decide
+example : (emitWith (fileCodec ⟨.ascii⟩) (.path "res.json") exDir [.str "β-lactone"]).2.2 = none := by decide
+example : (writeToFileIn ⟨.ascii⟩ ⟨[⟨none⟩], [[("a", .mod true (.str "Müller β"))]], .dict []⟩ (.path "res.json") exDir).err
+    = none := by decide
 /-- orjson's integer range is a fault boundary -/
 example : (PyVal.int 18446744073709551615).faulty = false ∧ (PyVal.int 18446744073709551616).faulty = true := by
   decide
